@@ -142,15 +142,17 @@ class Sx:
         return core.is_sym(x)
 
     def assume(self, cond):
+        """constrain the inputs (no fork): paths where cond cannot hold are abandoned"""
         if isinstance(cond, bool):
             if not cond:
                 raise PathAbort()
             return
-        if CTX.active:
-            if not bool(cond):
-                raise PathAbort()
-        else:
+        if not CTX.active:
             raise Unsupported("assume on symbolic outside exploration")
+        CTX.solver.add(tobool(cond))
+        CTX.model = None
+        if not CTX._check():
+            raise PathAbort()
 
     # ---- outcome bookkeeping ---------------------------------------------------------------
     def cover(self, label):
